@@ -245,6 +245,13 @@ def cvalue (v : Value) (kids : List Tree) : CValue :=
   | .attribute n s => .attribute n s
   | .namespace p n => .namespace p n
 
+/-- Canonical value with the listed attribute names disregarded (the specification of
+    `shallow_equal_ignore_attributes`). -/
+def cvalueIgnoring (ignore : List Nat) (v : Value) (kids : List Tree) : CValue :=
+  match v with
+  | .element n => .element n (sortAttrs ((attrPairs kids).filter fun kv => !ignore.contains kv.1))
+  | _ => cvalue v kids
+
 /-- The canonical form of a subtree. -/
 def canon : Tree → Canon
   | .node v ks => .node (cvalue v ks) (canonList ks)
